@@ -18,7 +18,7 @@ LEVEL_NOTE = ("Trusted: the seam interposes the libc entry points listed in DESI
 RULE = ("case = generated project x configuration point; one fault-free --check run plus one run per sampled/enumerated "
         "(operation k, action) with action in {fail errno, short, eintr, kill_before, kill_after, sig_before, sig_after}. "
         "Non-trivial = run with a fired fault or a distinct configuration point; distinct = (world, k, action, errno).")
-PROBES = ["stdout_closed", "tmpdir_missing", "lock_corrupt", "lock_valid", "cache_off", "error_config", "no_missing_refs", "fault_fired", "killed", "signalled"]
+PROBES = ["odd_argv", "stdout_closed", "tmpdir_missing", "lock_corrupt", "lock_valid", "cache_off", "error_config", "no_missing_refs", "fault_fired", "killed", "signalled"]
 ASSUMPTIONS = ["stat/open-for-read/readdir are not modifications"]
 DEADLINE = {"quick": 200, "thorough": 3000}
 
@@ -75,6 +75,10 @@ def gen(rng):
     knobs = scen.env_knobs(rng, knobs)
     if wm.get("knob_cfg"):
         knobs["config_name"] = wm.pop("knob_cfg")
+    if rng.random() < 0.12:
+        # spellings the argument parser may or may not accept - whichever it does, nothing may be modified
+        knobs["argv_style"] = rng.choice(["check_twice", "check_eq", "config_twice", "unknown_flag"])
+        tags.append("odd_argv")
     if rng.random() < 0.2:
         knobs["tmpdir"] = rng.choice(["no_such_tmp", "cache/run-1000/tmp", "outside/newtmp"])
         tags.append("tmpdir_missing")
